@@ -328,7 +328,10 @@ pub trait Scenario {
 }
 
 /// See `Scenario::small_scope`.  Alphabet lines must not depend on the state (they are fixed strings); a few actors,
-/// amounts around 0/1/2, self-targets, the current and the next block.
+/// amounts around 0/1/2, self-targets, the current and the next block.  The world that `start` builds must be the
+/// same for every trace of a variant (the enumeration skips all sequences that share a prefix whose last op left
+/// the state unchanged — a world that varies with the trace number would make that unsound); `env` lines that do
+/// not move to a later block than the one reached are skipped by the enumeration (blocks never go back).
 pub struct SmallScope {
     pub prefix: Vec<String>,
     pub alphabet: Vec<String>,
